@@ -135,6 +135,7 @@ type Machine struct {
 	raceExempt   int                // >0: accesses are not recorded by the race analysis (model-internal registries)
 	baseMaxLoop  int                // the configured loop bound (verifMaxLoop lowers cfg.MaxLoop for one path)
 	digests      map[*Value][]*Term // bytes written to streaming xxhash digests
+	bmShapes map[string]bmShape // verifSizedBitmap: size and container kind per bitmap variable
 	fsFault      bool               // every open fails with EMFILE (verifFsFault)
 	advPath      string             // path the environment may create (verifFsAdversary)
 	advActed     bool
@@ -821,6 +822,7 @@ func (m *Machine) resetPath(prefix []int32) {
 	m.atomicVals, m.conds = nil, nil
 	m.fsFault = false
 	m.digests = nil
+	m.bmShapes = nil
 	if m.baseMaxLoop == 0 {
 		m.baseMaxLoop = m.cfg.MaxLoop
 	}
@@ -1103,4 +1105,11 @@ func sortedKeys(m map[string]int) []string {
 // condState: sync.Cond as a ticket queue (Signal releases the oldest waiter, Broadcast all).
 type condState struct {
 	next, released int
+}
+
+// bmShape: what verifSizedBitmap fixed about a bitmap: its in-memory size and whether it is
+// made of run containers (sizes as the real library reports them, see serSizeOf).
+type bmShape struct {
+	sz    *Term
+	isRun *Term
 }
